@@ -16,11 +16,7 @@ CHECKS = {
  "C03": ("differential against transcriptions of node-semver 7 (desugaring of every comparator to primitive bounds + prerelease admission rule), the semver crate's VersionReq for Cargo (comma lists, default caret, partial versions, wildcards) through the same desugaring, PEP 440 specifier clauses on final releases and Maven VersionRange over structured requirement templates", "§7 C03, §11"),
  "C04": ("every implicit panic check and loop bound on every feasible path of the text entry points of util/semver (9 systems), util/pypi, the PyPI marker parser, util/resolve/schema (ParseResolve, New), the deptest/versiontest attribute parsers, resolve.MavenDepTypeToDependency and util/maven (profile activation, project keys, MergeParent+Interpolate+ProcessDependencies on a project with arbitrary-byte fields); inputs = all byte strings up to the stated lengths (grammar-alphabet bytes for the longer schema texts and row templates). Entry points built on net/mail, archive/*, encoding/xml and regexp are outside", "§7 C04, §11"),
  "C05": ("sequential clauses for all three resolvers (whole Resolve executed symbolically on skeleton universes of both generations): the client reports the same requirements and versions in the same order after Resolve; asking again, resolving another root in between on the same resolver and inserting the versions in the opposite order give the same graph, and the other root's graph equals a fresh resolver's. Concurrency clause decided sequentially as a lockset discipline on every path of one Resolve call (state that existed before the call is written only under an exclusive lock or through sync/atomic, and read under a lock where it is written), counterexamples replayed as 8 concurrent calls under the race detector; goroutine interleavings themselves are not explored (the engine has no scheduler)", "§7 C05, §11"),
- "C06": ("graph clauses (edge satisfies requirement, every non-dev non-peer requirement resolved or reported, reachability, fresh-install choice "
-         "for every node) and, through the verif-tagged hook, the install-tree clauses (tree nodes = graph nodes, no directory holds one name twice, "
-         "Node's walk-up lookup lands on the edge's target) asserted on the real npm Resolve over skeleton universes (3-4 packages, <=3 versions, two "
-         "requirement slots per version, optional/dev/peer/bundle-scoped kinds, aliases) with symbolic digits in versions or requirements; bundled "
-         "(derived) packages are not generated", "§7 C06, §11"),
+ "C06": ("graph clauses (edge satisfies requirement, every non-dev non-peer requirement resolved or reported, reachability, fresh-install choice for every node) and, through the verif-tagged hook, the install-tree clauses (tree nodes = graph nodes, no directory holds one name twice, Node's walk-up lookup lands on the edge's target) asserted on the real npm Resolve over skeleton universes (3-4 packages, <=3 versions, two requirement slots per version, optional/dev/peer/bundle-scoped kinds, aliases incl. a directed family with an alias named like a real package) with symbolic digits in versions or requirements; universes with bundled (derived) packages are generated too, with the graph clauses only, as the property says", "§7 C06, §11"),
  "C07": ("unit lemmas (findMatch preference order incl. one hard range among two soft requirements, exclusions, root-only scopes, artifact identity) plus the real Maven Resolve over skeleton universes with symbolic version numbers (one version per artifact, ranges respected, root-only scopes, war not traversed, management override, nearest-wins with exclusions inherited along paths against a breadth-first reference on soft-only skeletons incl. a directed diamond-with-exclusion family)", "§7 C07, §11"),
  "C08": ("unit lemmas of the PyPI resolver state (criteria, versionMap, intersect, filterSlice, copy independence) plus the real PyPI Resolve over skeleton universes of two generations (symbolic version/specifier numbers and marker thresholds; two requirement slots per version, cycles through the root package, requested extras and extra-guarded requirements, prerelease specifiers): one version per package, root never replaced, a requirement whose marker is true for the extras requested in the final graph is an edge to a satisfying version, a false one contributes nothing, reachability", "§7 C08, §11"),
  "C09": ("membership laws of the real Union/Intersect/canon/matchVersion over constraint templates with symbolic digits (Default, NPM, Cargo, Go)", "§7 C09, §11"),
